@@ -78,6 +78,7 @@ def gen_hierarchy(r, prefix, shape=None):
             s_ = h.subs(e["name"])
             if s_ and r.random() < 0.5:
                 e["expr"] = gen_expr(r, s_)
+        h.shape = "chainroots"
         return h
     if shape == "tree":
         for i in range(n):
@@ -315,11 +316,12 @@ def main(tier, seed):
                         " ".join(q[1]), realb, "legal" if want else "illegal", (" (%s)" % why) if why else ""),
                         {"input_file": save("c08-%d-%d-h%d.exp" % (seed, k, hi), hier_text), "set": list(q[1])},
                         signature=("missing_second_supertype_accepted" if realb and why and any(len(h.ent(n)["supers"]) > 1 for n in q[1]) else None))
-                known_gap = (realb != want and realb and any(len(h.ent(n)["supers"]) > 1 for n in q[1]) and mm[0] == ("1" if want else "0"))
+                known_gap = (getattr(h, "shape", "") == "chainroots" and realb != want and realb and
+                             any(len(h.ent(n)["supers"]) > 1 for n in q[1]) and mm[0] == ("1" if want else "0"))
                 if known_gap:
                     # the open finding missing_second_supertype_accepted: the matcher accepts the set, the rule and the model refuse it.
                     # Complex.v follows the matcher for a member with two supertypes inside one hierarchy (c08_supports_iff_legal_refuted);
-                    # across several roots it says what the rule says, and is not asked to reproduce the matcher's answer
+                    # across three roots (shape chainroots only) it says what the rule says, and is not asked to reproduce the matcher's answer
                     hist["model_sides_with_rule_on_known_finding"] = hist.get("model_sides_with_rule_on_known_finding", 0) + 1
                 elif mm[0] != ("1" if realb else "0"):
                     disagreements += 1
